@@ -150,6 +150,10 @@ theorem flow_ticket_discipline : Ebu.Flow.ticketDiscipline = true := by decide +
 `defer` of a handler invocation is registered before anything else -/
 theorem flow_handler_bracket : Ebu.Flow.handlerBracket = true := by decide +kernel
 
+/-- OBLIGATION: both condition variables are used so that no wake-up is lost: the waiter re-checks in a loop, the
+state change is followed by a `Broadcast` (`Bus.Wait`'s counter and the ticket lock of Async+Sequential handlers) -/
+theorem flow_cond_vars : Ebu.Flow.condVarShape = true := by decide +kernel
+
 /-- non-vacuity: the tables are not empty and contain writes, reads and atomics -/
 example : accessFacts.length > 40 ∧ accessFacts.any (·.write) = true ∧ accessFacts.any (·.atomic) = true ∧
     callbackFacts.length > 10 := by decide
